@@ -6,6 +6,7 @@ require (
 	github.com/alephium/wormhole-fork/node v0.0.0
 	github.com/anishathalye/porcupine v1.3.0
 	github.com/ethereum/go-ethereum v1.10.21
+	github.com/libp2p/go-libp2p v0.22.0
 	go.uber.org/zap v1.22.0
 	golang.org/x/crypto v0.0.0-20220525230936-793ad666bf5e
 	google.golang.org/grpc v1.42.0
@@ -81,7 +82,6 @@ require (
 	github.com/libp2p/go-buffer-pool v0.1.0 // indirect
 	github.com/libp2p/go-cidranger v1.1.0 // indirect
 	github.com/libp2p/go-flow-metrics v0.1.0 // indirect
-	github.com/libp2p/go-libp2p v0.22.0 // indirect
 	github.com/libp2p/go-libp2p-asn-util v0.2.0 // indirect
 	github.com/libp2p/go-libp2p-core v0.20.0 // indirect
 	github.com/libp2p/go-libp2p-kad-dht v0.18.0 // indirect
